@@ -215,7 +215,7 @@ def validatorOf (f : Field) : PyVal :=
   .obj "_Validator" [("name", .str f.rawName), ("raw_name", .str f.emailName), ("added", .str f.added)]
 
 /-- how the cached (enriched) value of a field appears: the views on the right-hand sides of the `_process_*` theorems -/
-def viewOf : Field → Meta.Val → PyVal
+def viewOfField : Field → Meta.Val → PyVal
   | .version => ofEnriched "Version"
   | .requires_python => ofEnriched "SpecifierSet"
   | .requires_dist => ofEnriched "Requirement"
@@ -229,7 +229,7 @@ def InstRel (inst : PyVal) (st : Meta.St) : Prop :=
     lookupField fs "_raw" = some (.dict (rawD d)) ∧
     (d.map (·.1)).Nodup ∧
     (∀ k : Str, dictLookup (rawD d) (.str k) = (Meta.aget k st.raw).map ofVal) ∧
-    (∀ g : Field, lookupField fs (toStringLossy g.rawName) = (Meta.aget g.rawName st.cache).map (viewOf g))
+    (∀ g : Field, lookupField fs (toStringLossy g.rawName) = (Meta.aget g.rawName st.cache).map (viewOfField g))
 
 /-- the `_process_<name>` method of field `f`, if the class has one (`getattr(self, f"_process_{self.name}")`) -/
 def procSrc (ext : PyRt.Oracle) (f : Field) (self value : PyVal) : M PyVal :=
@@ -313,7 +313,7 @@ end GetP
 theorem procSrc_eq_model (o : Meta.Oracle) (f : Field) (self : PyVal) (v : Meta.Val)
     (hw : WellTyped f v) (hs : SaneOracle o f v) (hc : (Meta.isRequired f || v != .none) = true) :
     procSrc (extOf6 o) f self (ofVal v) =
-      ofRes (viewOf f) (match Meta.process o f with | some p => p v | none => .ok v) := by
+      ofRes (viewOfField f) (match Meta.process o f with | some p => p v | none => .ok v) := by
   cases f
   case metadata_version =>
     cases v with
@@ -323,65 +323,65 @@ theorem procSrc_eq_model (o : Meta.Oracle) (f : Field) (self : PyVal) (v : Meta.
     | dict d => exact mv_nonstr self _ _ (by simp)
   case name =>
     cases v with
-    | str s => simp only [procSrc, name6, Meta.process, viewOf]; exact _Validator._process_name_eq_model o self _ s hs
+    | str s => simp only [procSrc, name6, Meta.process, viewOfField]; exact _Validator._process_name_eq_model o self _ s hs
     | none => simp [procSrc, name_none, Meta.process, Meta.procName, ofRes, excName, ofVal]
     | list l => exact absurd hw (by simp [WellTyped, kindOf])
     | dict d => exact absurd hw (by simp [WellTyped, kindOf])
   case version =>
     cases v with
-    | str s => simp only [procSrc, Meta.process, viewOf, version6]; exact _Validator._process_version_eq_model o self _ s hs
+    | str s => simp only [procSrc, Meta.process, viewOfField, version6]; exact _Validator._process_version_eq_model o self _ s hs
     | none => simp [procSrc, version_none, Meta.process, Meta.procVersion, ofRes, excName, ofVal]
     | list l => exact absurd hw (by simp [WellTyped, kindOf])
     | dict d => exact absurd hw (by simp [WellTyped, kindOf])
   case summary =>
     cases v with
-    | str s => simp only [procSrc, Meta.process, viewOf]; exact _Validator._process_summary_eq_model self _ s
+    | str s => simp only [procSrc, Meta.process, viewOfField]; exact _Validator._process_summary_eq_model self _ s
     | none => exact absurd hc (by decide)
     | list l => exact absurd hw (by simp [WellTyped, kindOf])
     | dict d => exact absurd hw (by simp [WellTyped, kindOf])
   case description_content_type =>
     cases v with
-    | str s => simp only [procSrc, Meta.process, viewOf]; exact _Validator._process_description_content_type_eq_model o self _ s hs
+    | str s => simp only [procSrc, Meta.process, viewOfField]; exact _Validator._process_description_content_type_eq_model o self _ s hs
     | none => exact absurd hc (by decide)
     | list l => exact absurd hw (by simp [WellTyped, kindOf])
     | dict d => exact absurd hw (by simp [WellTyped, kindOf])
   case requires_python =>
     cases v with
-    | str s => simp only [procSrc, Meta.process, viewOf, requires_python6]; exact _Validator._process_requires_python_eq_model o self _ s hs
+    | str s => simp only [procSrc, Meta.process, viewOfField, requires_python6]; exact _Validator._process_requires_python_eq_model o self _ s hs
     | none => exact absurd hc (by decide)
     | list l => exact absurd hw (by simp [WellTyped, kindOf])
     | dict d => exact absurd hw (by simp [WellTyped, kindOf])
   case license_expression =>
     cases v with
-    | str s => simp only [procSrc, Meta.process, viewOf, license_expression6]; exact _Validator._process_license_expression_eq_model o self _ s hs
+    | str s => simp only [procSrc, Meta.process, viewOfField, license_expression6]; exact _Validator._process_license_expression_eq_model o self _ s hs
     | none => exact absurd hc (by decide)
     | list l => exact absurd hw (by simp [WellTyped, kindOf])
     | dict d => exact absurd hw (by simp [WellTyped, kindOf])
   case dynamic =>
     cases v with
-    | list l => simp only [procSrc, Meta.process, viewOf, dynamic6]; exact _Validator._process_dynamic_eq_model o self _ l
+    | list l => simp only [procSrc, Meta.process, viewOfField, dynamic6]; exact _Validator._process_dynamic_eq_model o self _ l
     | none => exact absurd hc (by decide)
     | str s => exact absurd hw (by simp [WellTyped, kindOf])
     | dict d => exact absurd hw (by simp [WellTyped, kindOf])
   case provides_extra =>
     cases v with
-    | list l => simp only [procSrc, Meta.process, viewOf, provides_extra6]; exact _Validator._process_provides_extra_eq_model o self _ l hs
+    | list l => simp only [procSrc, Meta.process, viewOfField, provides_extra6]; exact _Validator._process_provides_extra_eq_model o self _ l hs
     | none => exact absurd hc (by decide)
     | str s => exact absurd hw (by simp [WellTyped, kindOf])
     | dict d => exact absurd hw (by simp [WellTyped, kindOf])
   case requires_dist =>
     cases v with
-    | list l => simp only [procSrc, Meta.process, viewOf, requires_dist6]; exact _Validator._process_requires_dist_eq_model o self _ l hs
+    | list l => simp only [procSrc, Meta.process, viewOfField, requires_dist6]; exact _Validator._process_requires_dist_eq_model o self _ l hs
     | none => exact absurd hc (by decide)
     | str s => exact absurd hw (by simp [WellTyped, kindOf])
     | dict d => exact absurd hw (by simp [WellTyped, kindOf])
   case license_files =>
     cases v with
-    | list l => simp only [procSrc, Meta.process, viewOf, license_files6]; exact _Validator._process_license_files_eq_model o self _ l
+    | list l => simp only [procSrc, Meta.process, viewOfField, license_files6]; exact _Validator._process_license_files_eq_model o self _ l
     | none => exact absurd hc (by decide)
     | str s => exact absurd hw (by simp [WellTyped, kindOf])
     | dict d => exact absurd hw (by simp [WellTyped, kindOf])
-  all_goals simp [procSrc, Meta.process, ofRes, viewOf]
+  all_goals simp [procSrc, Meta.process, ofRes, viewOfField]
 
 namespace GetP
 
@@ -423,10 +423,10 @@ theorem del_raw (c : String) (fs : List (String × PyVal)) (d : List (Str × PyV
 theorem instRel_after (st : Meta.St) (fs fs' : List (String × PyVal)) (d : List (Str × PyVal)) (f : Field) (w : Meta.Val)
     (hnd : (d.map (·.1)).Nodup)
     (hlk : ∀ k : Str, dictLookup (rawD d) (.str k) = (Meta.aget k st.raw).map ofVal)
-    (hcache : ∀ g : Field, lookupField fs (toStringLossy g.rawName) = (Meta.aget g.rawName st.cache).map (viewOf g))
+    (hcache : ∀ g : Field, lookupField fs (toStringLossy g.rawName) = (Meta.aget g.rawName st.cache).map (viewOfField g))
     (h1 : lookupField fs' "_raw" = some (.dict (rawD (Meta.adel f.rawName d))))
     (h2 : ∀ g : Field, lookupField fs' (toStringLossy g.rawName) =
-      if f = g then some (viewOf f w) else lookupField fs (toStringLossy g.rawName)) :
+      if f = g then some (viewOfField f w) else lookupField fs (toStringLossy g.rawName)) :
     InstRel (.obj "Metadata" fs')
       { raw := Meta.adel f.rawName st.raw, cache := Meta.aset f.rawName w st.cache } := by
   refine ⟨fs', Meta.adel f.rawName d, rfl, h1, nodup_adel _ _ hnd, ?_, ?_⟩
@@ -454,7 +454,7 @@ theorem _Validator.__get___eq_model (o : Meta.Oracle) (f : Field) (inst owner : 
     (hs : SaneOracle o f ((Meta.aget f.rawName st.raw).getD .none)) :
     match Meta.descGet o f st with
     | (.ok v, st') => ∃ inst', Gen.PySrc._Validator.__get__ (extOf6 o) (validatorOf f) inst owner
-          = .ok (.tuple [viewOf f v, inst']) ∧ InstRel inst' st'
+          = .ok (.tuple [viewOfField f v, inst']) ∧ InstRel inst' st'
     | (.error e, _) => Gen.PySrc._Validator.__get__ (extOf6 o) (validatorOf f) inst owner = .error (excName e) := by
   obtain ⟨fs, d, rfl, hraw, hnd, hlk, hcache⟩ := hrel
   generalize hv : (Meta.aget f.rawName st.raw).getD .none = v at hw hs
@@ -467,8 +467,8 @@ theorem _Validator.__get___eq_model (o : Meta.Oracle) (f : Field) (inst owner : 
     intro value; rw [lookupField_setField, if_neg (attr_ne_raw f), hraw]
   have htail : ∀ (w : Meta.Val), ∃ fs',
       (match Meta.aget f.rawName d with
-       | some _ => setField (setField fs (toStringLossy f.rawName) (viewOf f w)) "_raw" (.dict (rawD (Meta.adel f.rawName d)))
-       | none => setField fs (toStringLossy f.rawName) (viewOf f w)) = fs' ∧
+       | some _ => setField (setField fs (toStringLossy f.rawName) (viewOfField f w)) "_raw" (.dict (rawD (Meta.adel f.rawName d)))
+       | none => setField fs (toStringLossy f.rawName) (viewOfField f w)) = fs' ∧
       InstRel (.obj "Metadata" fs') { raw := Meta.adel f.rawName st.raw, cache := Meta.aset f.rawName w st.cache } := by
     intro w
     refine ⟨_, rfl, instRel_after st fs _ d f w hnd hlk hcache ?_ ?_⟩
@@ -514,7 +514,7 @@ theorem _Validator.__get___eq_model (o : Meta.Oracle) (f : Field) (inst owner : 
     subst hn
     have hconv : Meta.conv o f (Meta.aget f.rawName st.raw) = .ok .none := by
       simp [Meta.conv, hv, hr]
-    have hview : viewOf f .none = .none := by cases f <;> rfl
+    have hview : viewOfField f .none = .none := by cases f <;> rfl
     rw [hconv]
     obtain ⟨fs', hfs, hrel⟩ := htail .none
     refine ⟨.obj "Metadata" fs', ?_, hrel⟩
@@ -528,7 +528,7 @@ theorem _Validator.__get___no_converter (o : Meta.Oracle) (f : Field) (inst owne
         = .ok (.tuple [ofVal ((Meta.aget f.rawName st.raw).getD .none), inst']) ∧
       InstRel inst' { raw := Meta.adel f.rawName st.raw,
                       cache := Meta.aset f.rawName ((Meta.aget f.rawName st.raw).getD .none) st.cache } := by
-  have hk : kindOf f = .any ∧ viewOf f = ofVal ∧ f ≠ .metadata_version := by
+  have hk : kindOf f = .any ∧ viewOfField f = ofVal ∧ f ≠ .metadata_version := by
     cases f <;> first | (exact ⟨rfl, rfl, by decide⟩) | (simp [Meta.process] at hf)
   have hw : WellTyped f ((Meta.aget f.rawName st.raw).getD .none) := by
     simp only [WellTyped, hk.1]; split <;> trivial
